@@ -73,6 +73,10 @@ func (r *rewriter) rewritePkgCall(c *astutil.Cursor, x *ast.CallExpr, pkg, fn st
 		x.Fun = sos("SignalNotify")
 	case pkg == "os/signal":
 		unsup(r.fset, x.Pos(), "os/signal."+fn)
+	case pkg == "runtime" && fn == "NumCPU":
+		// tuning knob: pool sizes derived from the CPU count are randomised per simulated process
+		r.markOS("numcpu")
+		x.Fun = sos("NumCPU")
 	case pkg == "github.com/boyter/gocodewalker" && (fn == "NewParallelFileWalker" || fn == "NewFileWalker"):
 		r.markOS("filewalker")
 		x.Fun = sos("NewFileWalker")
